@@ -1266,6 +1266,9 @@ def c10(ix: Index) -> None:
                         seen_a.add(cur)
                         cur = ix.parent_of[cur]
                         anc.append(cur)
+                    if res_h is not None and res_h['err'] == 'RuntimeError' and _self_recursion_depth(ix, i['ev'], hi) >= 3:
+                        ix.C['c10_handlers_refused_by_the_recursion_guard'] += 1
+                        continue  # F2c (recorded for C01): the recursion guard refused the handler; nothing to do with the timeout
                     if res_h is not None and res_h['err'] == 'CancelledError' and any(q['err'] == 'TimeoutError' for a in anc for q in fin.get(a, {}).get('results', [])):
                         ix.C['c10_handlers_cancelled_by_an_ancestors_timeout'] += 1
                         continue
@@ -1333,6 +1336,25 @@ def _c10_effective(ix: Index, fired: list) -> set:
     return out
 
 
+def _desc_before(ix: Index, ev: int, seq: int) -> set:
+    """Lineage descendants of ev counting only the dispatches (parent -> child links) made before trace position seq."""
+    edges = getattr(ix, '_edges', None)
+    if edges is None:
+        edges = collections.defaultdict(list)
+        for r in ix.R:
+            if r['k'] == 'disp_call' and r.get('parent') is not None and r['parent'] != r['ev']:
+                edges[r['parent']].append((r['seq'], r['ev']))
+        ix._edges = edges
+    out, st = set(), [ev]
+    while st:
+        x = st.pop()
+        for s_, c in edges.get(x, ()):
+            if s_ < seq and c not in out:
+                out.add(c)
+                st.append(c)
+    return out
+
+
 def _c10_abandoned(ix: Index, fired: list) -> list:
     """[(event X whose process_event was abandoned, covered)] - covered: X lies in the lineage tree of an event whose handler's
     timeout path ran (that path cancels the pending results of the whole tree)."""
@@ -1341,10 +1363,12 @@ def _c10_abandoned(ix: Index, fired: list) -> list:
     for p in abandoned_procs(ix):
         x = p['b']['ev']
         chain = [p['b']['drv']] + (ix.driver_chain(p['b']['drv'])[1:] if isinstance(p['b']['drv'], int) else [])
-        fired_events = [ix.inv[c]['ev'] for c in chain if isinstance(c, int) and c in eff]
+        fired_at = [(ix.inv[c]['ev'], ix.exit[c]['seq'] if c in ix.exit else ix.end_seq) for c in chain if isinstance(c, int) and c in eff]
         # (strict descendants: the timeout path cancels the pending results of the event's CHILDREN; the event's own results on
-        # another bus - it was being processed there, through a forward, inside its own handler's drain - are not touched by it)
-        covered = any(x in ix.desc(e) for e in fired_events)
+        # another bus - it was being processed there, through a forward, inside its own handler's drain - are not touched by it.
+        # And descendants AT THAT MOMENT: an event object that top-level code queued earlier and that a later handler of the same
+        # event will pass on is, when the timeout path runs, still an unrelated queue head)
+        covered = any(x in _desc_before(ix, e, at) for e, at in fired_at)
         out.append((x, covered, [c for c in chain if isinstance(c, int)]))
     return out
 
